@@ -11,6 +11,7 @@ import (
 	"github.com/avfs/avfs"
 	"github.com/avfs/avfs/idm/memidm"
 
+	"verif/internal/fsx"
 	"verif/internal/hook"
 	"verif/internal/rt"
 	"verif/internal/sched"
@@ -131,6 +132,7 @@ func idmExec(idm *memidm.MemIdm, o idmOp) (out idmOut) {
 			out = idmOut{Err: fmt.Sprintf("panic:%v", p)}
 		}
 	}()
+	fsx.BeginCall() // the lock-site budget of the sequential hook is per call
 	switch o.K {
 	case "AddGroup":
 		g, err := idm.AddGroup(o.Name)
